@@ -289,6 +289,36 @@ func init() {
 					}
 				}
 			}
+			// (E1a') the same singles on a claims-set that validates against *another* canonical name - what a derived
+			// profile embedding the built-in type holds, or a bare struct literal (canonical name empty): every getter,
+			// every class and the verdict are those of the embedded profile's rules, only the profile check differs
+			for _, canon := range []string{"", "http://example.com/derived/" + p} {
+				for _, kind := range []string{"full", "minimal"} {
+					for _, keepProfile := range []bool{true, false} {
+						bs := bases[kind].clone()
+						bs.Canon = canon
+						if !keepProfile {
+							if canon == "" {
+								delete(bs.Vals, "profile")
+							} else {
+								bs.Vals["profile"] = V{K: "prof", S: []any{canon}}
+							}
+						}
+						r.emit(bs, "derived:"+kind, "lit")
+						for _, c := range d.Order {
+							if c == "profile" {
+								continue
+							}
+							for _, al := range d.alts(p, c) {
+								s := bs.clone()
+								s.apply(al)
+								r.emit(s, "derived-single:"+kind, "lit")
+							}
+						}
+					}
+				}
+				r.emit(CSpec{P: p, Canon: canon, Vals: map[string]V{}}, "derived-blank", "lit")
+			}
 			// (E1b) all pairs over the fine domain on the full base (masking)
 			for i, c1 := range d.Order {
 				for _, c2 := range d.Order[i+1:] {
